@@ -1110,6 +1110,33 @@ example : columns [[(0 : ℚ), 0, 0]] =
     (gridPoints [uniformAxis (0 : ℚ) 1 3 .linear]).map (fun p => p.map (fun _ => (0 : ℚ))) := by
   decide +kernel
 
+/-- `linear_deform` with a displacement that moves every grid point onto a grid point (e.g. whole
+strides of a uniform grid, the docstring example "the value is taken from one cell to the left"):
+the result is the template re-indexed, `out[idx] = template[σ idx]`, for every scheme mix, dimension
+and non-uniform grid (`σ` any map of valid multi-indices to valid multi-indices). -/
+theorem C15.deform_onto_nodes (axes : List (Axis K)) (hg : ∀ a ∈ axes, a.Good) (hne : axes ≠ [])
+    (v : List Nat → V) (disp : List (List K)) (σ : List Nat → List Nat)
+    (hσ : ∀ idx, ValidIdx axes idx → ValidIdx axes (σ idx))
+    (hd : deformedPoints axes disp = (allIdx axes).map (fun idx => gridPoint axes (σ idx))) :
+    linearDeform axes v disp = (allIdx axes).map (fun idx => v (σ idx)) := by
+  have hlen : ∀ p ∈ deformedPoints axes disp, p.length = axes.length := by
+    rw [hd]
+    intro p hp
+    obtain ⟨idx, hidx, rfl⟩ := List.mem_map.mp hp
+    have hv := hσ idx (mem_allIdx_lt axes idx hidx)
+    simp only [gridPoint, List.length_zipWith, hv.length_eq, Nat.min_self]
+  rw [C15.deform_samples_interpolant axes hg hne v disp hlen, hd, List.map_map]
+  apply List.map_congr_left
+  intro idx hidx
+  exact (C15.interp_node_exact axes hg (σ idx) (hσ idx (mem_allIdx_lt axes idx hidx))).1 v
+
+/-- Non-vacuity: the docstring example of `linear_deform`: on `uniform_discr(0, 1, 5)` the
+displacement (0, 0, 0, -1/5, 0) moves node 3 onto node 2. -/
+example : deformedPoints [uniformAxis (0 : ℚ) 1 5 .linear] [[0, 0, 0, -1 / 5, 0]] =
+    (allIdx [uniformAxis (0 : ℚ) 1 5 .linear]).map
+      (fun idx => gridPoint [uniformAxis (0 : ℚ) 1 5 .linear] (if idx = [3] then [2] else idx)) := by
+  decide +kernel
+
 /-- `linear_deform` of an affine template with linear interpolation is the affine function at the
 displaced points `x + v(x)`, whenever these stay in the hull of the grid nodes (any dimension,
 non-uniform grids). -/
